@@ -152,6 +152,8 @@ theorem translateX64_exact (row : Row) (rule : RuleX64) (first : Bool) (regs : R
   | valOffset n => simp [hrar] at ht
   | register r => simp [hrar] at ht
   | other => simp [hrar] at ht
+  | exprReg _ _ => simp [hrar] at ht
+  | valExprReg _ _ => simp [hrar] at ht
   | offset n =>
     simp only [hrar] at ht
     split at ht
@@ -161,6 +163,7 @@ theorem translateX64_exact (row : Row) (rule : RuleX64) (first : Bool) (regs : R
       subst hn8
       cases hc : row.cfa with
       | expr => simp [hc] at ht
+      | exprRegOff _ _ => simp [hc] at ht
       | regOff reg off =>
         simp only [hc] at ht
         have hoff : InI64 off := by simpa [CfaRule.WF, hc] using hwc
@@ -333,6 +336,8 @@ theorem evalRegRule_spec {get : DReg → Option Nat} {mem : Mem} {rule : RegRule
   | valOffset n => simp [specReg] at hs
   | register r => simp [specReg] at hs
   | other => simp [specReg] at hs
+  | exprReg _ _ => simp [specReg] at hs
+  | valExprReg _ _ => simp [specReg] at hs
 
 /-- **The generic evaluator implements DWARF (x86-64).** For a row of the C05 domain that is
 not compressed (or for any such row), if DWARF prescribes a step and no refusal applies,
@@ -368,6 +373,8 @@ theorem genericX64_exact (row : Row) (first : Bool) (regs : RegsX64) (mem : Mem)
     | valOffset n => simp [hrar] at hgo
     | register r => simp [hrar] at hgo
     | other => simp [hrar] at hgo
+    | exprReg _ _ => simp [hrar] at hgo
+    | valExprReg _ _ => simp [hrar] at hgo
     | sameValue =>
       simp only [hrar] at hgo
       cases hsr : specReg mem cfa regs.bp row.fp with
@@ -428,6 +435,7 @@ theorem genericX64_exact (row : Row) (first : Bool) (regs : RegsX64) (mem : Mem)
   unfold dwarfSpec at hs
   cases hc : row.cfa with
   | expr => simp [hc] at hs
+  | exprRegOff _ _ => simp [hc] at hs
   | regOff reg off =>
     have hoff : InI64 off := by simpa [CfaRule.WF, hc] using hwc
     cases reg with
@@ -499,6 +507,7 @@ theorem translateA64_exact (row : Row) (rule : RuleA64) (first : Bool) (regs : R
   unfold translateA64 at ht
   cases hc : row.cfa with
   | expr => simp [hc] at ht
+  | exprRegOff _ _ => simp [hc] at ht
   | regOff reg off =>
     simp only [hc] at ht
     have hoff : InI64 off := by simpa [CfaRule.WF, hc] using hwc
@@ -533,6 +542,12 @@ theorem translateA64_exact (row : Row) (rule : RuleA64) (first : Bool) (regs : R
           have hrl : regRuleToCfaOffset row.ra = .err := by simp [regRuleToCfaOffset, hrar]
           simp [hrl] at ht
         | other =>
+          have hrl : regRuleToCfaOffset row.ra = .err := by simp [regRuleToCfaOffset, hrar]
+          simp [hrl] at ht
+        | exprReg _ _ =>
+          have hrl : regRuleToCfaOffset row.ra = .err := by simp [regRuleToCfaOffset, hrar]
+          simp [hrl] at ht
+        | valExprReg _ _ =>
           have hrl : regRuleToCfaOffset row.ra = .err := by simp [regRuleToCfaOffset, hrar]
           simp [hrl] at ht
         | sameValue =>
@@ -741,6 +756,8 @@ theorem evalRegRule_spec_some {get : DReg → Option Nat} {mem : Mem} {rule : Re
   | valOffset n => simp [specReg] at hs
   | register r => simp [specReg] at hs
   | other => simp [specReg] at hs
+  | exprReg _ _ => simp [specReg] at hs
+  | valExprReg _ _ => simp [specReg] at hs
 
 /-- **The generic evaluator implements DWARF (aarch64).** In caller frames framehop insists
 on recovering the frame pointer, so there the row must say how (`same value` or a slot). -/
@@ -778,6 +795,8 @@ theorem genericA64_exact (row : Row) (first : Bool) (regs : RegsA64) (mem : Mem)
       | valOffset n => simp [hrar] at hgo
       | register r => simp [hrar] at hgo
       | other => simp [hrar] at hgo
+      | exprReg _ _ => simp [hrar] at hgo
+      | valExprReg _ _ => simp [hrar] at hgo
       | sameValue =>
         simp only [hrar] at hgo
         cases hsr : specReg mem cfa regs.fp row.fp with
@@ -828,6 +847,7 @@ theorem genericA64_exact (row : Row) (first : Bool) (regs : RegsA64) (mem : Mem)
   unfold dwarfSpec at hs
   cases hc : row.cfa with
   | expr => simp [hc] at hs
+  | exprRegOff _ _ => simp [hc] at hs
   | regOff reg off =>
     have hoff : InI64 off := by simpa [CfaRule.WF, hc] using hwc
     cases reg with
